@@ -44,11 +44,23 @@ async def e2e_case(ctx, rng, k):
             self.d.append(('E',))
             return True
 
+    # the server application may create the channel itself with its own encoding, overriding the listener's
+    # default: here a RAW channel (encoding=None) on a listener whose default is a text encoding
+    rawchan = encoding is not None and rng.random() < 0.35
+    srv_encoding = encoding
+    if rawchan:
+        encoding = None                 # what both applications use on this channel
+
     class Srv(asyncssh.SSHServer):
+        def connection_made(self, conn_):
+            self._conn = conn_
+
         def begin_auth(self, u):
             return False
 
         def session_requested(self):
+            if rawchan:
+                return self._conn.create_server_channel(encoding=None), SSess()
             return SSess()
 
     def on_wire(wire):
@@ -80,7 +92,7 @@ async def e2e_case(ctx, rng, k):
         wire.hold = False
 
     tun, wire, acc, conn = await memwire.connected_pair(
-        Srv, srv_kw={'window': window, 'max_pktsize': pktsize, 'encoding': encoding},
+        Srv, srv_kw={'window': window, 'max_pktsize': pktsize, 'encoding': srv_encoding},
         cli_kw=({'rekey_bytes': rekey} if rekey else {}), on_wire=on_wire)
     try:
         chans = []
@@ -104,6 +116,8 @@ async def e2e_case(ctx, rng, k):
                 size = min(size, 12 * rekey)       # a dozen exchanges per write at most (run time)
             if encoding:
                 data = ''.join(rng.choice(alphabet) for _ in range(min(size, 3000)))
+            elif rawchan:
+                data = bytes((total + j * 7) % 256 for j in range(size))        # not valid UTF-8 / UTF-16
             else:
                 data = bytes((total + j) % 251 for j in range(size))
             total += len(data)
@@ -152,7 +166,7 @@ async def e2e_case(ctx, rng, k):
             data = empty.join(x[1] for x in s.d if x[0] == 'D')
             want = empty.join(written[i])
             cfg = {'kind': 'e2e', 'seedcase': k, 'window': window, 'pktsize': pktsize, 'encoding': encoding,
-                   'chunkmode': chunkmode, 'nchan': nchan, 'channel': i, 'rekey_bytes': rekey,
+                   'chunkmode': chunkmode, 'nchan': nchan, 'channel': i, 'rekey_bytes': rekey, 'rawchan': rawchan,
                    'written_len': len(want), 'delivered_len': len(data)}
             ctx.note_case(('e2e', k, i, window, pktsize, encoding, chunkmode, len(want)), nontrivial=len(want) > window)
             if data != want:
@@ -167,6 +181,8 @@ async def e2e_case(ctx, rng, k):
         ctx.count('e2e.enc.%s' % encoding)
         ctx.count('e2e.chunk.%s' % chunkmode)
         ctx.count('e2e.rekey.%s' % ('yes' if rekey else 'no'))
+        if rawchan:
+            ctx.count('e2e.raw_channel_on_text_listener')
     finally:
         conn.abort()
         wire.cut_link()
